@@ -245,6 +245,17 @@ func work(id string, p Prop, args []string) int {
 		if i%97 == 3 && !v.Violation && v.Discard == "" {
 			v2 := p.Run(c)
 			o.DetChecked++
+			if v2.Violation && v2.Known == "" && *out != "" {
+				// the same case, executed a second time in this process, violates the property:
+				// behaviour depends on state the first execution left behind. The replay file
+				// is the case twice (explicit, executed in order in one fresh process).
+				rec := ViolationRec{RunSeed: rs, Class: v2.Class, Detail: "on the second execution of the same case in one process: " + v2.Detail, Idx: i}
+				rec.CaseFile = fmt.Sprintf("%s/viol-%s-%s-w%d-rerun.json", *out, id, *planName, *worker)
+				b1, _ := json.Marshal(c)
+				writeJSON(rec.CaseFile, map[string]interface{}{"multi": []json.RawMessage{b1, b1}})
+				o.Violations = append(o.Violations, rec)
+				break
+			}
 			if v2.Fingerprint != v.Fingerprint || v2.Violation != v.Violation || v2.Discard != v.Discard || v2.Trace != v.Trace || v2.Steps != v.Steps {
 				o.DetMismatch++
 			}
